@@ -1,4 +1,9 @@
 """C14 -- equal-weight posterior is an unbiased, order-preserving resampling."""
+import ast
+
+from ..cfg import cfg_of
+from ..exprs import dotted
+from ..agree import _depends
 from ..sampler_rules import rule_L5
 from ..effects import purity
 
@@ -17,6 +22,29 @@ def run(ctx):
     ctx.ob('F1', 'Sampler.posterior:draw-is-parameter-guarded',
            bool(pg) and all(g == 'equal_weight' for _, _, g in pg), f.where(),
            'the stochastic rounding draw happens only under equal_weight=True')
+    # def-use dependencies of the repeat counts (weak: the arithmetic is not decided)
+    ctx.rule('Q4', 'the repeat counts depend on the weights, on equal_weight_boost, on a floor '
+             'and on one uniform draw per sample; no sample is dropped or duplicated by any '
+             'other mechanism')
+    cfg = cfg_of(f)
+    reps = [n for n in cfg.nodes if n.kind == 'stmt' and isinstance(n.ast, ast.Assign) and
+            isinstance(n.ast.value, ast.Call) and dotted(n.ast.value.func) == 'np.repeat' and
+            len(n.ast.value.args) >= 2 and any(k.arg == 'axis' for k in n.ast.value.keywords)]
+    ctx.require(reps, 'Sampler.posterior: resampling by np.repeat not found')
+    sel = reps[0].ast.value.args[1]
+    nid = reps[0].id
+    deps = {
+        'weights': lambda e: isinstance(e, ast.Name) and e.id == 'log_w',
+        'boost': lambda e: isinstance(e, ast.Name) and e.id == 'equal_weight_boost',
+        'floor': lambda e: isinstance(e, ast.Call) and dotted(e.func) == 'np.floor',
+        'uniform-draw': lambda e: isinstance(e, ast.Call) and dotted(e.func) ==
+        'self.rng.random',
+    }
+    for k, pred in deps.items():
+        ok = _depends(cfg, nid, sel, pred)
+        ctx.ob('Q4', 'Sampler.posterior:repeats-depend-on(%s)' % k, ok, f.where(reps[0].ast),
+               'the repeat counts depend on %s' % k if ok else
+               'the repeat counts do not depend on %s' % k)
     ctx.floor('L5', 8, 'view obligations')
     ctx.not_decided += ['floor(r)/floor(r)+1 with expectation r; equal normalised weights '
                         '(arithmetic, not code shape)']
